@@ -42,6 +42,9 @@ SCENARIOS["big_results"] = (False, 2, None, 1.0, 2, [(lambda: iter(range(6)), 1,
 SCENARIOS["factory_big_results"] = (True, 2, 2, 1.0, None, [(lambda: iter(range(6)), 1, True)])
 SCENARIOS["none_inputs"] = (False, 2, None, 1.0, None, [(lambda: iter([0, None, 2, None, None, 5, 0.0]), 2, True),
                                                         (lambda: iter([None]), 1, False)])
+# items that are equal but distinguishable (1, True, 1.0) in one chunk, a functor that tells them apart
+SCENARIOS["equal_items"] = (False, 2, None, 1.0, None, [(lambda: iter([1, True, 1.0, 1, 2, 2.0, 0, False, 0.0, -0.0]), 3, True),
+                                                         (lambda: iter([True, 1, 1.0, 1]), 4, False)])
 SCENARIOS["exception_values"] = (False, 2, None, 1.0, None, [(lambda: iter(range(7)), 2, True), (lambda: iter(range(5)), 1, False)])
 BIG = 1 << 20
 
@@ -51,6 +54,8 @@ def fun(name, x):
         return (x, bytes([x % 251]) * BIG)
     if x is None:
         return None
+    if name == "equal_items":
+        return (type(x).__name__, repr(x))
     if name == "exception_values":
         # an exception instance returned (not raised) is a value like any other
         return ("exc", "ValueError", x) if False else (ValueError("multiple of three", x) if x % 3 == 0 else x)
